@@ -38,7 +38,7 @@ logging.getLogger("dissect.cobaltstrike.beacon").setLevel(logging.CRITICAL)
 
 ID = "C13"
 DRIVER = "drv_c13"
-GEN = ["grammar", "beacon", "profile_gen", "strlit"]
+GEN = ["grammar", "profile_gen", "strlit"]
 STREAMS = {
     "gen": {"relevant": False, "desc": "C2Profile.from_beacon_config(BeaconConfig(block)).tree vs fromBeaconConfig; pretty values / uris of the library vs the line"},
     "rt": {"relevant": False, "desc": "as_text() succeeds / from_text(text).tree == tree (comment aside) / from_text(text).as_dict() vs specDict"},
@@ -47,21 +47,27 @@ STREAMS = {
 TRUSTED = [
     "tools/harness/c13.py: generators, the independent TLV/program encoders, the independent expected dictionary and well-formedness "
     "predicate; line protocol parsing in lean/CsVerif/Driver/C13.lean",
-    "tools/gen/profile_gen.py (ast walk of from_beacon_config and friends) and tools/gen/grammar.py",
+    "tools/gen/profile_gen.py (ast walk of from_beacon_config, DataTransformBlock.__init__, parse_transform_binary, parse_recover_binary, "
+    "beacon_gate_options_string, as_dict) and tools/gen/grammar.py",
     "the pretty functions of beacon.py and dict semantics of settings_by_index are C02/C03's subject: the harness checks on every case "
     "that the library presents exactly the pretty values written on the line (`pv=T`)",
-    "Lark (LALR parser, Reconstructor) is modelled by C10's printTree; `from_text(as_text())` is modelled as 'the same tree without "
-    "comment_dns_resolver statements' and compared on every case; as_dict is modelled by the declarative projection specDict "
-    "(C11's subject) and compared on every case",
+    "Lark: the Reconstructor is modelled by C10's printTree (the theorems go through `Derives` = existence of a derivation of the generated "
+    "grammar table), the lexer by C10's lexProfile, the STRING regex by C12's scanner; the LALR parser itself is trusted: "
+    "`from_text(as_text()).tree == tree` (the `# dns_resolver` comment aside) is compared on every case, not proved",
+    "as_dict is represented by the declarative projection specDict (production lookup in the generated grammar + the as_dict value rules; "
+    "C11's subject is that the token walk computes it): compared with the real as_dict on every case",
     "a shared Reconstructor instance replaces the per-call `Reconstructor(c2profile_parser)` inside the harness (same class, same "
     "parser object; only its internal parser cache is reused); every 40th heavy case runs with the library's own per-call instance",
-    "modelled, not verified: str.lower/replace/partition/join, slicing, f-strings of ints, defaultdict insertion order",
+    "modelled, not verified: str.lower/replace/partition/join, slicing, f-strings of ints, defaultdict insertion order, Python truthiness",
 ]
 ASSUMPTIONS = [
     "pretty values have the shapes beacon.py produces for the canonical TLV types; text is latin-1; execute strings are latin-1",
-    "BeaconGate API names reach the generator in set-iteration order: both sides compare the block with its non-group tail sorted",
+    "BeaconGate API names reach the generator in set-iteration order: both sides compare the block with its non-group tail sorted "
+    "(the harness checks that the tree lists them in the order of the pretty value)",
     "well-formed = printable-ASCII text without backslash, known execute items, programs with every BUILD group terminated once and last, "
-    "an even number of comma-separated fields in SETTING_DOMAINS, defined enum values",
+    "exactly one `print` in the recover program, an even number of comma-separated fields in SETTING_DOMAINS, defined enum values",
+    "the http-get server output is promised in *recover* order (the configuration only stores the recover program and lengths; "
+    "arguments are `X`*n placeholders): the generated block lists the steps in the order the client undoes them",
 ]
 RULE = ("single-setting / all-present / random subset-and-order configurations over typed value generators (zero and non-zero guards, every "
         "transform/recover opcode with nasty byte arguments, every execute name, all single-flag gate vectors and group complements, "
@@ -852,6 +858,11 @@ def shrink(stream, line):
         return
     def emit(es, us=None):
         us = uris_of(es) if us is None else us
+        try:                                    # only lines the independent encoder can turn into a configuration
+            for e in es:
+                tlv_of(*e)
+        except Exception:  # noqa: BLE001
+            return line
         return op + " " + enc_payload(us, es)
     for i in range(len(entries)):
         yield emit(entries[:i] + entries[i + 1:])
@@ -1333,11 +1344,11 @@ def gen(tier, rng, shard, nshards):
     for i in range(n_all):
         if mine():
             yield from emit(gen_config(rng, p=1.0))
-    n_rand = (9000 if thorough else 1500) // nshards
+    n_rand = (9000 if thorough else 1200) // nshards
     for i in range(n_rand):
         yield from emit(gen_config(rng, p=rng.choice([0.5, 0.5, 0.5, 0.15, 0.85]), dup=0.2))
     # small configurations (2-4 settings): order and block-placement interactions at volume
-    n_small = (12000 if thorough else 2500) // nshards
+    n_small = (12000 if thorough else 2000) // nshards
     for i in range(n_small):
         yield from emit(gen_config(rng, p=rng.choice([0.05, 0.08, 0.12]), dup=0.1))
     # ---- not well-formed: one broken setting per configuration (malformed programs, None items, odd domains, backslashes) --
@@ -1345,7 +1356,7 @@ def gen(tier, rng, shard, nshards):
     for i in range(n_bad):
         yield from emit(gen_config(rng, p=rng.choice([0.1, 0.3, 0.5]), wf=False))
     # ---- tree-only volume ---------------------------------------------------------------------------------------------------------
-    n_cheap = (40000 if thorough else 6000) // nshards
+    n_cheap = (40000 if thorough else 5000) // nshards
     for i in range(n_cheap):
         yield from emit(gen_config(rng, p=rng.choice([0.1, 0.5, 0.9]), wf=rng.random() < 0.8, dup=0.3), heavy=False)
 
